@@ -41,6 +41,11 @@ NextWriter(r) ==
   IN /\ IF fin.bad = {} THEN TRUE ELSE PrintT(<<"REJECT", l, r.seq, r.e, fin.bad, fin.firstbad>>)
      /\ UNCHANGED <<ref, tss>>
 
+NextConc(r) ==
+  LET bad == P!Check_CONC(r)
+  IN /\ IF bad = {} THEN TRUE ELSE PrintT(<<"REJECT", l, r.seq, r.e, bad>>)
+     /\ UNCHANGED <<ref, tss>>
+
 NextRoute(r) ==
   LET bad == IF r.e = "ROUTE" THEN PR!Check_ROUTE(r) ELSE PR!Check_FIX(r)
   IN /\ IF bad = {} THEN TRUE ELSE PrintT(<<"REJECT", l, r.seq, r.e, bad>>)
@@ -59,6 +64,7 @@ Next ==
           [] r.e = "WINHIST" -> NextWinHist(r)
           [] r.e \in {"WLINK", "WINIT"} -> NextWriter(r)
           [] r.e \in {"ROUTE", "FIX"} -> NextRoute(r)
+          [] r.e = "CONC" -> NextConc(r)
           [] r.e \in {"TLOGW", "TLOGR"} -> NextTlog(r)
           [] OTHER -> PrintT(<<"REJECT", l, r.seq, r.e, {"H_unknown_record_kind"}>>) /\ UNCHANGED <<ref, tss>>
   /\ l' = l + 1
